@@ -1,4 +1,5 @@
 import EmsModel.Lemmas.Select
+import EmsModel.Props.C04
 /-!
 # C05 — index and point selection return the stored values, complete and in order
 -/
@@ -284,6 +285,128 @@ theorem policy_fill (n : Nat) (labels : List Nat) (rows : List (List (Option α)
 theorem policy_fill_length (n : Nat) (labels : List Nat) (rows : List (List (Option α))) :
     (fillRows n labels rows).length = n := by simp [fillRows]
 
+
+/-! ### end to end: selecting by points (composition with C04)
+
+`select_points` / `extract_points` first look every point up (`Convention.get_index_for_point`, C04) and
+then select the native indexes found (`select_indexes`, above).  Composed: whatever `intersects` is and in
+whatever order the spatial index reports its hits, a point is a *miss* iff no cell polygon intersects it,
+and the index selected for a *hit* is the native index of the lowest-indexed intersecting cell — so, by
+`select_values`, its row holds the values stored at exactly that cell. -/
+
+/-- the lookup of every requested point: `none` = the point misses the model -/
+def lookupPoints (intersects : Poly → Pt → Bool) (c : Conv) (polys : List (Option Poly)) (pts : List Pt) :
+    List (Option (String × List Nat)) :=
+  pts.map fun pt => (getIndexForPoint c polys (hitSet intersects polys pt)).bind (·.native)
+
+/-- no cell polygon intersects the point -/
+def Misses (intersects : Poly → Pt → Bool) (polys : List (Option Poly)) (pt : Pt) : Prop :=
+  ∀ (n : Nat) (p : Poly), polys[n]? = some (some p) → intersects p pt = false
+
+theorem lookupPoints_spec (intersects : Poly → Pt → Bool) (c : Conv) (polys : List (Option Poly))
+    (pts : List Pt) (shape : List Nat) (hs : c.shape? c.default = some shape)
+    (hsize : polys.length = size shape) (i : Nat) (hi : i < pts.length) :
+    ((lookupPoints intersects c polys pts)[i]? = some none ↔ Misses intersects polys pts[i]) ∧
+    (∀ x, (lookupPoints intersects c polys pts)[i]? = some (some x) →
+      ∃ n idx, x = (c.default, idx) ∧ c.ravelIndex (c.default, idx.map Int.ofNat) = some n ∧
+        (∃ p, polys[n]? = some (some p) ∧ intersects p pts[i] = true) ∧
+        ∀ (m : Nat) (p : Poly), polys[m]? = some (some p) → intersects p pts[i] = true → n ≤ m) := by
+  have hget : (lookupPoints intersects c polys pts)[i]? =
+      some ((getIndexForPoint c polys (hitSet intersects polys pts[i])).bind (·.native)) := by
+    simp [lookupPoints, hi]
+  have hperm : (hitSet intersects polys pts[i]).Perm (hitSet intersects polys pts[i]) := List.Perm.refl _
+  constructor
+  · rw [hget, Option.some.injEq]
+    constructor
+    · intro h
+      cases hl : getIndexForPoint c polys (hitSet intersects polys pts[i]) with
+      | none => exact (C04.lookup_none_iff intersects c polys pts[i] _ hperm).mp hl
+      | some item =>
+        obtain ⟨_, idx, hn, _⟩ := C04.lookup_coherent intersects c polys pts[i] _ hperm item hl shape hs hsize
+        simp [hl, hn] at h
+    · intro h
+      rw [(C04.lookup_none_iff intersects c polys pts[i] _ hperm).mpr h]; rfl
+  · intro x hx
+    rw [hget, Option.some.injEq] at hx
+    cases hl : getIndexForPoint c polys (hitSet intersects polys pts[i]) with
+    | none => simp [hl] at hx
+    | some item =>
+      obtain ⟨_, idx, hn, hr⟩ := C04.lookup_coherent intersects c polys pts[i] _ hperm item hl shape hs hsize
+      obtain ⟨hex, hle⟩ := C04.lookup_least intersects c polys pts[i] _ hperm item hl
+      simp only [hl, Option.bind_some, hn, Option.some.injEq] at hx
+      exact ⟨item.linear, idx, hx.symm, hr, hex, hle⟩
+
+/-- **`missing_points='error'`, end to end**: the call raises iff some requested point intersects no
+cell, and the positions it names are exactly those points. -/
+theorem points_error_end_to_end [Inhabited α] (intersects : Poly → Pt → Bool) (c : Conv)
+    (polys : List (Option Poly)) (pts : List Pt) (shape : List Nat) (hs : c.shape? c.default = some shape)
+    (hsize : polys.length = size shape)
+    (grids : List (String × List Dim)) (ds : DSet α) (geometry : List String) (pdim : String) :
+    (∀ m, extractPoints grids ds geometry (lookupPoints intersects c polys pts) pdim "error" = .error m →
+      ∀ (i : Nat), i ∈ m ↔ ∃ (hi : i < pts.length), Misses intersects polys pts[i]) ∧
+    ((∃ (i : Nat) (hi : i < pts.length), Misses intersects polys pts[i]) →
+      ∃ m, extractPoints grids ds geometry (lookupPoints intersects c polys pts) pdim "error" = .error m) := by
+  obtain ⟨h1, h2⟩ := policy_error grids ds geometry (lookupPoints intersects c polys pts) pdim
+  have hlen : (lookupPoints intersects c polys pts).length = pts.length := by simp [lookupPoints]
+  constructor
+  · intro m hm i
+    rw [(h1 m hm).2 i]
+    constructor
+    · intro h
+      have hi : i < pts.length := by rw [← hlen]; exact (List.getElem?_eq_some_iff.mp h).1
+      exact ⟨hi, (lookupPoints_spec intersects c polys pts shape hs hsize i hi).1.mp h⟩
+    · rintro ⟨hi, h⟩
+      exact (lookupPoints_spec intersects c polys pts shape hs hsize i hi).1.mpr h
+  · rintro ⟨i, hi, h⟩
+    exact h2 ⟨i, (lookupPoints_spec intersects c polys pts shape hs hsize i hi).1.mpr h⟩
+
+/-- **`missing_points='drop'`, end to end**: the rows kept are exactly the requested points some cell
+intersects, labelled with their original positions in increasing order, and what is selected for them
+are the native indexes of the lowest-indexed intersecting cells. -/
+theorem points_drop_end_to_end [Inhabited α] (intersects : Poly → Pt → Bool) (c : Conv)
+    (polys : List (Option Poly)) (pts : List Pt) (shape : List Nat) (hs : c.shape? c.default = some shape)
+    (hsize : polys.length = size shape)
+    (grids : List (String × List Dim)) (ds : DSet α) (geometry : List String) (pdim : String)
+    (labels : List Nat) (out : DSet α)
+    (h : extractPoints grids ds geometry (lookupPoints intersects c polys pts) pdim "drop" = .ok labels out) :
+    (∀ (i : Nat), i ∈ labels ↔ ∃ (hi : i < pts.length), ¬ Misses intersects polys pts[i]) ∧
+    labels.Pairwise (· < ·) ∧
+    selectIndexes grids ds geometry ((lookupPoints intersects c polys pts).filterMap id) pdim = some out ∧
+    (∀ x ∈ (lookupPoints intersects c polys pts).filterMap id, ∃ (i : Nat) (hi : i < pts.length) (n : Nat) (idx : List Nat),
+      x = (c.default, idx) ∧ c.ravelIndex (c.default, idx.map Int.ofNat) = some n ∧
+      (∃ p, polys[n]? = some (some p) ∧ intersects p pts[i] = true) ∧
+      ∀ (m : Nat) (p : Poly), polys[m]? = some (some p) → intersects p pts[i] = true → n ≤ m) := by
+  obtain ⟨hsel, _, hmem, hsorted⟩ := policy_drop grids ds geometry _ pdim labels out h
+  have hlen : (lookupPoints intersects c polys pts).length = pts.length := by simp [lookupPoints]
+  refine ⟨?_, hsorted, hsel, ?_⟩
+  · intro i
+    rw [hmem i]
+    constructor
+    · rintro ⟨x, hx⟩
+      have hi : i < pts.length := by rw [← hlen]; exact (List.getElem?_eq_some_iff.mp hx).1
+      refine ⟨hi, fun hmiss => ?_⟩
+      have := (lookupPoints_spec intersects c polys pts shape hs hsize i hi).1.mpr hmiss
+      rw [hx] at this; simp at this
+    · rintro ⟨hi, hnot⟩
+      have hlt : i < (lookupPoints intersects c polys pts).length := by rw [hlen]; exact hi
+      cases hx : (lookupPoints intersects c polys pts)[i]? with
+      | none => rw [List.getElem?_eq_getElem hlt] at hx; simp at hx
+      | some o =>
+        cases o with
+        | none => exact absurd ((lookupPoints_spec intersects c polys pts shape hs hsize i hi).1.mp hx) hnot
+        | some x => exact ⟨x, rfl⟩
+  · intro x hx
+    rw [List.mem_filterMap] at hx
+    obtain ⟨o, ho, hox⟩ := hx
+    simp only [id] at hox
+    subst hox
+    obtain ⟨i, hlt, hi⟩ := List.getElem_of_mem ho
+    have hip : i < pts.length := by rw [← hlen]; exact hlt
+    have hget : (lookupPoints intersects c polys pts)[i]? = some (some x) := by
+      rw [List.getElem?_eq_getElem hlt, hi]
+    obtain ⟨n, idx, h1, h2, h3, h4⟩ := (lookupPoints_spec intersects c polys pts shape hs hsize i hip).2 x hget
+    exact ⟨i, hip, n, idx, h1, h2, h3, h4⟩
+
 /-! ### non-vacuity -/
 def exV : NArr (Option Int) := { dims := [("y", 2), ("t", 2), ("x", 3)], data := [some 0, some 1, some 2, some 3, some 4, some 5, some 6, some 7, some 8, some 9, some 10, none] }
 example : (exV.selectVar ["y", "x"] [[1, 1], [0, 2], [1, 1]] "index").get? [("index", 2), ("t", 1)] = some (some 10) := by decide +kernel
@@ -292,5 +415,15 @@ example : (selectIndexes [("face", [("y", 2), ("x", 3)])] [("v", exV), ("w", { d
 example : ∃ m, extractPoints [("face", [("y", 2), ("x", 3)])] [("v", exV)] [] [some ("face", [1, 1]), none] "point" "error"
     = (.error m : Extract (Option Int)) :=
   (policy_error _ _ _ _ _).2 ⟨1, rfl⟩
+
+/-! non-vacuity of the composition: the point (2,1) lies on the edge shared by cells 0 and 1 and is looked up
+as cell 0 (the least of its hits), the point (5,1) misses, so `lookupPoints … [(2,1),(5,1)]` has one hit and one miss -/
+example : C04.exConv.shape? C04.exConv.default = some [1, 3] ∧ C04.exPolys.length = size [1, 3] := by decide
+example : hitSet (fun p q => pointInPoly q p) C04.exPolys (2, 1) = [0, 1] := by decide +kernel
+example : Misses (fun p q => pointInPoly q p) C04.exPolys (5, 1) := by
+  intro n p hp
+  have hn : n < 3 := (List.getElem?_eq_some_iff.mp hp).1
+  have : n = 0 ∨ n = 1 ∨ n = 2 := by omega
+  rcases this with rfl | rfl | rfl <;> simp [C04.exPolys] at hp <;> subst hp <;> decide +kernel
 
 end Ems.C05
